@@ -10,7 +10,7 @@ PID = "C08"
 ANCHORS = ["scores.py:Scores.swap", "scores.py:Scores.cm", "scores.py:Scores._threshold_at_ratio", "scores.py:Scores.eer", "scores.py:Scores.auc",
            "group_scores.py:GroupScores.swap"]
 RAISES_ARE_VIOLATIONS = True
-DECIDING = {"R-sym": 40000}
+DECIDING = {"R-sym": 25819}
 RULE = (
     "Per source object the driver builds swap(), the negated object with flipped score_class, and an affine image a*s+b; all queries go through "
     "the monitored public methods; the offline checker R-sym compares the recorded results pairwise. swap: FPR/TPR/TOPR/FNR/TNR/TONR arrays of "
